@@ -43,6 +43,9 @@ TEMPLATES = [
     ("ij,kj,k->i", [(2, 3), (2, 3), (2,)]),
     ("ij,ij->ij", [(2, 1), (2, 3)]),          # broadcast unit axis inside the einsum
     ("ii->i", [(3, 3)]),
+    ("ij->i", [(2, 3)]),                      # single operand, reduced last axis
+    ("ij->", [(2, 3)]),
+    ("ij,i->i", [(2, 3), (2,)]),              # the reduced axis is fixed by no other operand
 ]
 S_INT = {"py": "int", "v": "3"}
 S_FLT = {"py": "float", "v": "0.5"}
@@ -56,7 +59,13 @@ class Builder:
         self.g = progspace._Gen(rng, ("f8",))
         self.rng = rng
 
+    share = 0.0
+
     def leaf(self, shape: tuple) -> int:
+        if self.share and self.rng.random() < self.share:
+            same = self.g.arrays(lambda a: a.shape == tuple(shape))
+            if same:
+                return same[int(self.rng.integers(len(same)))]
         return self.g.add_input(tuple(shape), "f8")
 
     def call(self, c: dict) -> int:
@@ -100,6 +109,12 @@ class Builder:
                 raise ValueError("no axes")
             small = tuple(1 if k == 0 else n for k, n in enumerate(shape))
             return c({"op": "add", "a": sub(shape), "b": sub(small)})
+        if name in ("add_bcast_last", "sub_bcast_last"):
+            if not shape:
+                raise ValueError("no axes")
+            small = tuple(1 if k == len(shape) - 1 else n for k, n in enumerate(shape))
+            return c({"op": "add" if name == "add_bcast_last" else "sub",
+                      "a": sub(small), "b": sub(shape)})
         if name == "add_scalar_array":
             return c({"op": "add", "a": sub(shape), "b": sub(())})
         if name == "mul_scalar_array":
@@ -142,7 +157,7 @@ class Builder:
 
 FORMS = ["leaf", "add", "sub", "mul_xy", "div_xy", "c_mul", "mul_c", "npc_mul", "mul_fc",
          "div_c", "c_div", "c_add", "add_c", "c_sub", "sub_c", "neg", "pow_c", "c_pow", "sin",
-         "add_bcast", "add_scalar_array", "mul_scalar_array", "rev", "transpose", "reshape",
+         "add_bcast", "add_bcast_last", "sub_bcast_last", "add_scalar_array", "mul_scalar_array", "rev", "transpose", "reshape",
          "roll", "where", "sum_of_three", "matvec", "stack"]
 
 
@@ -175,12 +190,42 @@ def systematic(tier: str = "thorough") -> list[dict]:
     return progs
 
 
+def shared_operand() -> list[dict]:
+    """ONE sub-expression object is an operand of TWO einsums (same template,
+    different other operands): E(A.., s) + E(B.., s), and both as separate
+    outputs -- what a rewrite cache keyed too coarsely would confuse."""
+    progs = []
+    rng = np.random.default_rng(1)
+    for (ti, (spec, shapes)), pos, f1 in itertools.product(
+            enumerate(TEMPLATES), range(3), ["add", "sub", "c_mul", "div_c", "neg", "mul_c"]):
+        if pos >= len(shapes) or len(shapes) < 2:
+            continue
+        b = Builder(rng)
+        try:
+            s_ref = b.form(f1, shapes[pos], b.leaf)
+            es = []
+            for _ in range(2):
+                args = [s_ref if k == pos else b.leaf(sh) for k, sh in enumerate(shapes)]
+                es.append(b.call({"op": "einsum", "spec": spec, "args": args}))
+            total = b.call({"op": "add", "a": es[0], "b": es[1]})
+        except ValueError:
+            continue
+        prog = b.g.finalize(f"shared/{ti}:{spec}/{pos}/{f1}", 1)
+        # also return the two einsums themselves (ids shift by the input reordering:
+        # the last three calls are E1, E2, E1+E2)
+        n = len(prog["inputs"]) + len(prog["calls"])
+        prog["outs"] = {"out0": n, "out1": n - 1, "out2": n - 2}
+        progs.append(prog)
+    return progs
+
+
 def random_nested(rng: np.random.Generator, n: int) -> list[dict]:
     progs = []
     tries = 0
     while len(progs) < n and tries < n * 10:
         tries += 1
         b = Builder(rng)
+        b.share = 0.4
 
         def tree(shape: tuple, depth: int) -> int:
             if depth == 0 or rng.random() < 0.25:
@@ -354,7 +399,8 @@ def main(tier: str, only: list[dict] | None = None) -> int:
     if only is not None:
         progs = only
     else:
-        progs = systematic(tier) + random_nested(rng, 80 if tier == "quick" else 2500)
+        progs = systematic(tier) + shared_operand() + random_nested(
+            rng, 80 if tier == "quick" else 2500)
         design_check(run, tier)
     n = NCPU * 4
     with mp.Pool(NCPU) as pool:
